@@ -1918,6 +1918,14 @@ func (t *tScreen) inputLoop(stopQ chan struct{}) {
 		}
 		chunk := make([]byte, 128)
 		n, e := t.tty.Read(chunk)
+		if n > 0 {
+			// also when the read reports an error: the bytes that came with it are input
+			select {
+			case t.keychan <- chunk[:n]:
+			case <-stopQ:
+				return
+			}
+		}
 		switch e {
 		case nil:
 		default:
@@ -1932,13 +1940,6 @@ func (t *tScreen) inputLoop(stopQ chan struct{}) {
 				}
 			}
 			return
-		}
-		if n > 0 {
-			select {
-			case t.keychan <- chunk[:n]:
-			case <-stopQ:
-				return
-			}
 		}
 	}
 }
